@@ -132,7 +132,7 @@ def build_harness():
     return rc, out
 
 
-def run_area(area, seed, n, tier, work, tag=""):
+def run_area(area, seed, n, tier, work, tag="", mask=None, classes=None):
     out = os.path.join(work, "run" + tag)
     os.makedirs(out, exist_ok=True)
     exe = os.path.join(HARNESS, "target", "debug", "pv-harness")
@@ -148,6 +148,16 @@ def run_area(area, seed, n, tier, work, tag=""):
     mod = mo.split("\n")
     stats = json.load(open(os.path.join(out, area + ".stats.json")))
     fails = [json.loads(l) for l in open(os.path.join(out, area + ".oracle")) if l.strip()]
+    other_fails = []
+    if classes is not None:
+        # only the oracle classes that state THIS property; the rest belong to sibling properties
+        other_fails = [f for f in fails if not any(re.fullmatch(c, f["class"]) for c in classes)]
+        fails = [f for f in fails if any(re.fullmatch(c, f["class"]) for c in classes)]
+    def mk(x):
+        # compare only the property-relevant observables
+        for pat, rep in (mask or []):
+            x = re.sub(pat, rep, x)
+        return x
     # split into cases
     cases = []
     cur = None
@@ -162,10 +172,10 @@ def run_area(area, seed, n, tier, work, tag=""):
     disagreements = []
     for k, c in enumerate(cases):
         for j, (a, b) in enumerate(zip(c["impl"], c["model"])):
-            if a != b:
+            if mk(a) != mk(b):
                 disagreements.append(dict(case=k, line=j, request=c["lines"][j], impl=a, model=b, lines=c["lines"][: j + 1]))
                 break
-    return dict(stats=stats, fails=fails, disagreements=disagreements, ncases=len(cases), driver_rc=rc2)
+    return dict(stats=stats, fails=fails, other_fails=len(other_fails), disagreements=disagreements, ncases=len(cases), driver_rc=rc2)
 
 
 def replay_fails(area, lines, work):
@@ -331,7 +341,7 @@ def main():
     else:
         for a in cfg["areas"]:
             n = a[tier]
-            r = run_area(a["area"], seed, n, tier, work)
+            r = run_area(a["area"], seed, n, tier, work, mask=a.get("mask"), classes=a.get("classes"))
             if "error" in r:
                 violations.append(("correspondence", a["area"], [], [r["error"]], False))
                 continue
@@ -357,7 +367,7 @@ def main():
                 # broken correspondence / proof: search the implementation for a failing input
                 found = None
                 for extra in range(1, 4 if tier == "quick" else 8):
-                    rr = run_area(a["area"], seed * 1000 + extra, n * 2, tier, work, tag="-search")
+                    rr = run_area(a["area"], seed * 1000 + extra, n * 2, tier, work, tag="-search", mask=a.get("mask"), classes=a.get("classes"))
                     if "error" in rr:
                         break
                     nf = [f for f in rr["fails"] if f["class"] not in known_classes]
@@ -399,6 +409,7 @@ def main():
             input_distribution=hits,
             model_vs_impl_disagreements=sum(len(r["disagreements"]) for _, r in area_results),
             impl_vs_oracle_failures=sum(len(r["fails"]) for _, r in area_results),
+            oracle_failures_of_sibling_properties_ignored=sum(r["other_fails"] for _, r in area_results),
             known_finding_classes_seen=sorted(seen_known),
             leanchecker=leanchecker,
         ),
